@@ -568,10 +568,32 @@ func runC06(c *Ctx) {
 				put = call
 			}
 		})
+		// header and payload are identified by what is done with them: the header is the slice whose first four bytes
+		// receive the prefix and that is written first; the payload is what is written second.  (They were identified as
+		// results #0 and #1 of a helper; inlining that helper makes them phis.)
+		var writes []*ssa.Call
+		eachInstr(sp, func(in ssa.Instruction) {
+			if call, ok := in.(*ssa.Call); ok && call.Call.IsInvoke() && call.Call.Method.Name() == "Write" {
+				writes = append(writes, call)
+			}
+		})
 		if put == nil {
 			c.bad("R3", "sendPacket length prefix", p.Pos(sp.Pos()), "sendPacket no longer writes the length prefix")
 		} else {
 			args := argsOf(&put.Call)
+			var header ssa.Value
+			dstOK := false
+			if sl, ok := args[0].(*ssa.Slice); ok && sl.Low == nil {
+				if h, ok := constInt(sl.High); ok && h == 4 {
+					header = sl.X
+					dstOK = true
+				}
+			}
+			c.check(dstOK, "R3", "sendPacket length position", pos(put), "header[:4]", "the length is not stored in the first four bytes of the header")
+			var payload ssa.Value
+			if len(writes) == 2 {
+				payload = writes[1].Call.Args[0]
+			}
 			t := affineOf(args[1])
 			hk, pk := "", ""
 			for k, v := range t.atoms {
@@ -579,38 +601,37 @@ func runC06(c *Ctx) {
 				if !ok || builtinName(&call.Call) != "len" {
 					continue
 				}
-				if ex, ok := call.Call.Args[0].(*ssa.Extract); ok {
-					if mc, ok := ex.Tuple.(*ssa.Call); ok && calleeName(&mc.Call) == "marshalPacket" {
-						if ex.Index == 0 {
-							hk = k
-						}
-						if ex.Index == 1 {
-							pk = k
+				if header != nil && sameValue(call.Call.Args[0], header) {
+					hk = k
+				}
+				if payload != nil && sameValue(call.Call.Args[0], payload) {
+					pk = k
+				}
+			}
+			c.check(len(t.coef) == 2 && t.c == -4 && hk != "" && pk != "" && hk != pk && t.coef[hk] == 1 && t.coef[pk] == 1, "R3", "sendPacket length value", pos(put), "len(header)+len(payload)-4", "the length prefix is "+t.String()+", not len(header)+len(payload)-4")
+			okW := len(writes) == 2 && header != nil && sameValue(writes[0].Call.Args[0], header) && !sameValue(writes[1].Call.Args[0], header) && dominates(writes[0], writes[1]) && dominates(put, writes[0])
+			c.check(okW, "R3", "sendPacket writes header then payload", p.Pos(sp.Pos()), "Write(header); Write(payload) after the prefix is set", "header and payload are not written in this order after the prefix was filled in")
+			// both come out of the packet's marshaller
+			fromMarshal := func(v ssa.Value) bool {
+				if v == nil {
+					return false
+				}
+				for _, l := range leavesOf(v) {
+					if l.Kind == leafCallResult {
+						switch calleeName(l.Call) {
+						case "marshalPacket", "MarshalBinary":
+							continue
 						}
 					}
+					if cst, ok := l.V.(*ssa.Const); ok && cst.Value == nil {
+						continue // no payload
+					}
+					return false
 				}
+				return true
 			}
-			c.check(len(t.coef) == 2 && t.c == -4 && hk != "" && pk != "" && t.coef[hk] == 1 && t.coef[pk] == 1, "R3", "sendPacket length value", pos(put), "len(header)+len(payload)-4", "the length prefix is "+t.String()+", not len(header)+len(payload)-4")
-			// stored into header[:4]
-			dstOK := false
-			if s, ok := args[0].(*ssa.Slice); ok && s.Low == nil {
-				if h, ok := constInt(s.High); ok && h == 4 && strings.HasSuffix(valKey(s.X), "#0") {
-					dstOK = true
-				}
-			}
-			c.check(dstOK, "R3", "sendPacket length position", pos(put), "header[:4]", "the length is not stored in the first four bytes of the header")
+			c.check(fromMarshal(header) && fromMarshal(payload), "R3", "sendPacket sends what the marshaller produced", pos(put), "header and payload are the marshaller's results", "what sendPacket frames is not the packet marshaller's output")
 		}
-		var writes []*ssa.Call
-		eachInstr(sp, func(in ssa.Instruction) {
-			if call, ok := in.(*ssa.Call); ok && call.Call.IsInvoke() && call.Call.Method.Name() == "Write" {
-				writes = append(writes, call)
-			}
-		})
-		okW := len(writes) == 2 && strings.HasSuffix(valKey(writes[0].Call.Args[0]), "#0") && strings.HasSuffix(valKey(writes[1].Call.Args[0]), "#1") && dominates(writes[0], writes[1])
-		if put != nil && len(writes) > 0 {
-			okW = okW && dominates(put, writes[0])
-		}
-		c.check(okW, "R3", "sendPacket writes header then payload", p.Pos(sp.Pos()), "Write(header); Write(payload) after the prefix is set", "header and payload are not written in this order after the prefix was filled in")
 	}
 	if bp := p.FuncIn(p.Sshfx, "(*Buffer).Packet"); bp == nil {
 		c.missing("R3", "sshfx (*Buffer).Packet")
